@@ -73,10 +73,22 @@ type (
 		Init [][]uint        `json:"init"`
 		Ops  []verifC02SelOp `json:"ops"`
 	}
+	verifC02NumSub struct {
+		Factor int      `json:"factor"`
+		Vals   []uint64 `json:"vals"`
+		Init   []uint   `json:"init"`
+	}
+	verifC02NumCase struct {
+		Kind string           `json:"kind"` // num | time
+		N    int64            `json:"n"`    // constant of the condition
+		Own  uint64           `json:"own"`  // value of the stream under consideration (factor +1)
+		Subs []verifC02NumSub `json:"subs"`
+	}
 	verifC02Cases struct {
 		Base int64             `json:"base"` // unix seconds
 		Pops []verifC02Pop     `json:"pops"`
 		Sel  []verifC02SelCase `json:"sel"`
+		Num  []verifC02NumCase `json:"num"`
 	}
 )
 
@@ -302,6 +314,33 @@ func TestVerifC02(t *testing.T) {
 		}
 		os.RemoveAll(dir)
 	}
+	if len(cases.Num) != 0 {
+		// any reader will do: the relation filters only look at the previous results
+		wr, err := NewWriter(filepath.Join(tmp, "num.idx"))
+		if err != nil {
+			t.Fatal(err)
+		}
+		st, _ := verifC02MakeStream(base, verifC02Stream{ID: 0, CH: "0a000001", SH: "0a000002", CP: 1, SP: 2, CB: 1, SB: 1, FT: 0, LT: 1000000000, Proto: "tcp"})
+		if ok, err := wr.AddStream(st, 0); err != nil || !ok {
+			t.Fatal("AddStream", ok, err)
+		}
+		r, err := wr.Finalize()
+		if err != nil {
+			t.Fatal(err)
+		}
+		for ci, c := range cases.Num {
+			p := func() (p interface{}) {
+				defer func() { p = recover() }()
+				verifC02Num(w, ci, c, r)
+				return nil
+			}()
+			if p != nil {
+				fmt.Fprintf(w, "N %d PANIC %v\n", ci, p)
+			}
+			w.Flush()
+		}
+		r.Close()
+	}
 	for ci, c := range cases.Sel {
 		p := func() (p interface{}) {
 			defer func() { p = recover() }()
@@ -372,6 +411,94 @@ func verifC02Sel(w *bufio.Writer, ci int, c verifC02SelCase) {
 		fmt.Fprintf(w, " %d:%s", e, strings.Join(l, ","))
 	}
 	fmt.Fprintf(w, "\n")
+}
+
+// verifC02Num compiles ONE number or time condition that relates the stream under consideration to sub-queries
+// (real buildSearchObjects, synthetic previous results) and runs its filter on a selection: the answer and
+// the combinations of sub-query result positions that stay allowed are printed.
+func verifC02Num(w *bufio.Writer, ci int, c verifC02NumCase, r *Reader) {
+	name := func(i int) string { return fmt.Sprintf("s%d", i) }
+	prev := map[string]resultData{}
+	init := map[string]bitmask.ConnectedBitmask{}
+	for i, sub := range c.Subs {
+		rd := resultData{matchingQueryPart: make([]bitmask.ConnectedBitmask, 1)}
+		for pos, v := range sub.Vals {
+			st := &Stream{r: r, index: uint32(pos)}
+			if c.Kind == "time" {
+				st.FirstPacketTimeNS = v
+			} else {
+				st.ClientBytes = v
+			}
+			rd.streams = append(rd.streams, st)
+			rd.matchingQueryPart[0].Set(uint(pos))
+		}
+		prev[name(i)] = rd
+		bm := bitmask.ConnectedBitmask{}
+		for _, x := range sub.Init {
+			bm.Set(x)
+		}
+		init[name(i)] = bm
+	}
+	conds := query.Conditions{}
+	own := &stream{}
+	if c.Kind == "time" {
+		tc := &query.TimeCondition{Duration: time.Duration(c.N)}
+		tc.Summands = append(tc.Summands, query.TimeConditionSummand{SubQuery: "", FTimeFactor: 1})
+		for i, sub := range c.Subs {
+			tc.Summands = append(tc.Summands, query.TimeConditionSummand{SubQuery: name(i), FTimeFactor: sub.Factor})
+		}
+		conds = append(conds, tc)
+		own.FirstPacketTimeNS = c.Own
+		own.LastPacketTimeNS = c.Own
+	} else {
+		nc := &query.NumberCondition{Number: int(c.N)}
+		nc.Summands = append(nc.Summands, query.NumberConditionSummand{SubQuery: "", Type: query.NumberConditionSummandTypeClientBytes, Factor: 1})
+		for i, sub := range c.Subs {
+			nc.Summands = append(nc.Summands, query.NumberConditionSummand{SubQuery: name(i), Type: query.NumberConditionSummandTypeClientBytes, Factor: sub.Factor})
+		}
+		conds = append(conds, nc)
+		own.ClientBytes = c.Own
+	}
+	qp, err := r.buildSearchObjects("", 0, prev, r.ReferenceTime, &conds, nil, nil, nil, map[string]ConverterAccess{})
+	if err != nil || !qp.possible || len(qp.filters) != 1 {
+		fmt.Fprintf(w, "N %d BUILD %v possible=%v filters=%d\n", ci, err, qp.possible, len(qp.filters))
+		return
+	}
+	sc := &searchContext{allowedSubQueries: subQuerySelection{remaining: []map[string]bitmask.ConnectedBitmask{init}}}
+	ok, err := qp.filters[0](sc, own)
+	if err != nil {
+		fmt.Fprintf(w, "N %d ERR %v\n", ci, err)
+		return
+	}
+	if !ok {
+		fmt.Fprintf(w, "N %d 0:\n", ci)
+		return
+	}
+	combos := map[string]struct{}{}
+	for _, rem := range sc.allowedSubQueries.remaining {
+		cur := []string{""}
+		for i := range c.Subs {
+			bm := rem[name(i)]
+			next := []string(nil)
+			for _, pre := range cur {
+				for x := uint(0); x < uint(bm.Len()); x++ {
+					if bm.IsSet(x) {
+						next = append(next, fmt.Sprintf("%s.%d", pre, x))
+					}
+				}
+			}
+			cur = next
+		}
+		for _, x := range cur {
+			combos[x] = struct{}{}
+		}
+	}
+	l := []string(nil)
+	for x := range combos {
+		l = append(l, x)
+	}
+	sort.Strings(l)
+	fmt.Fprintf(w, "N %d 1:%s\n", ci, strings.Join(l, ","))
 }
 
 func verifC02DumpPop(mw *bufio.Writer, pi int, base time.Time, readers []*Reader) {
